@@ -898,6 +898,25 @@ pub fn explore_with(
     }
 }
 
+/// All programs of at most `max_len` operations over `alphabet`.
+pub fn programs_over(alphabet: &[POp], max_len: usize) -> Vec<Vec<POp>> {
+    let mut out: Vec<Vec<POp>> = vec![vec![]];
+    let mut frontier: Vec<Vec<POp>> = vec![vec![]];
+    for _ in 0..max_len {
+        let mut nf = Vec::new();
+        for p in &frontier {
+            for o in alphabet {
+                let mut q = p.clone();
+                q.push(*o);
+                nf.push(q);
+            }
+        }
+        out.extend(nf.iter().cloned());
+        frontier = nf;
+    }
+    out
+}
+
 pub fn programs(max_len: usize, with_abort: bool) -> Vec<Vec<POp>> {
     let mut alphabet = vec![POp::Write(1), POp::Write(2), POp::Flush, POp::Wait];
     if with_abort {
@@ -989,7 +1008,7 @@ fn random_strategy(with_abort: bool) -> BoxedStrategy<SchedCase> {
 pub const META_C10: Meta = Meta {
     id: "C10",
     level: "exploration",
-    rule: "Schedule enumeration on the real chunker code through hook H1: producer programs of up to 4 operations (thorough 5) over {write(1), write(2), flush, wait-until-delivered} + drop (random programs also write_all of up to 300 bytes, i.e. hundreds of chunks), chunk size 2 (identity) and of up to 3 operations with the gzip writer (chunk size 6; every operation is several chunker writes), against a consumer that parks on Pending, with same/fresh waker per poll (wakes to superseded wakers are ignored), 0 or 2 spurious polls, with/without is_end_stream/size_hint sampling; every schedule with <= 2 preemptions (thorough 3) is executed by stateless DFS (two real threads, exactly one runs, hand-over at lock acquisitions, wake() and operation boundaries); plus proptest over programs of <= 6 operations, chunk sizes {1,2,3,5,8}, writes of 1-17 bytes and random choice vectors (unbounded preemptions). Oracle (history invariants): no quiescent state with the consumer parked and un-woken while data, end or abort is undelivered; everything flushed is received in order before a clean end; bounded polls after the writer is gone. Non-trivial = schedule in which the consumer parked at least once or an actor was preempted; distinct by (program, config, choice vector).",
+    rule: "Schedule enumeration on the real chunker code through hook H1: producer programs of up to 4 operations (thorough 5, and all 6-operation programs; thorough also chunk size 3 with writes of 1, 2, 4 and 7 bytes) over {write(1), write(2), flush, wait-until-delivered} + drop (random programs also write_all of up to 300 bytes, i.e. hundreds of chunks), chunk size 2 (identity) and of up to 3 operations with the gzip writer (chunk size 6; every operation is several chunker writes), against a consumer that parks on Pending, with same/fresh waker per poll (wakes to superseded wakers are ignored), 0 or 2 spurious polls, with/without is_end_stream/size_hint sampling; every schedule with <= 2 preemptions (thorough 3) is executed by stateless DFS (two real threads, exactly one runs, hand-over at lock acquisitions, wake() and operation boundaries); plus proptest over programs of <= 6 operations, chunk sizes {1,2,3,5,8}, writes of 1-17 bytes and random choice vectors (unbounded preemptions). Oracle (history invariants): no quiescent state with the consumer parked and un-woken while data, end or abort is undelivered; everything flushed is received in order before a clean end; bounded polls after the writer is gone. Non-trivial = schedule in which the consumer parked at least once or an actor was preempted; distinct by (program, config, choice vector).",
     assumptions: &[
         "interleavings are at lock / wake / operation granularity: complete for this code because every shared field sits behind the one instrumented mutex",
         "no weak-memory effects (all sharing goes through std::sync::Mutex)",
@@ -1062,6 +1081,42 @@ fn run_common(cx: &Cx, c11: bool) -> Acc {
         }
     }
     acc.merge(a);
+    if cx.tier == Tier::Thorough && !c11 {
+        // The statement's bound: programs of 6 operations (preemption bound 2), and a second chunk
+        // size with writes below, at and above it (programs of <= 4 operations).
+        let mut deep: Vec<SchedCase> = Vec::new();
+        for program in programs(6, false) {
+            if program.len() < 6 {
+                continue;
+            }
+            for cfg in configs() {
+                if cfg.sample {
+                    continue;
+                }
+                deep.push(SchedCase { gzip: None, chunk: 2, program: program.clone(), cfg, choices: vec![] });
+            }
+        }
+        for program in programs_over(&[POp::Write(1), POp::Write(2), POp::Write(4), POp::Write(7), POp::Flush, POp::Wait], 4) {
+            for cfg in configs() {
+                if cfg.sample {
+                    continue;
+                }
+                deep.push(SchedCase { gzip: None, chunk: 3, program: program.clone(), cfg, choices: vec![] });
+            }
+        }
+        let complete = std::sync::atomic::AtomicBool::new(true);
+        let mut a = par_units(cx, "sched-enumeration-deep", &deep, true, "all schedules with <= 3 preemptions for every 6-operation program (chunk 2) and every program of <= 4 operations over {write 1,2,4,7, flush, wait} with chunk 3", |cx, base, acc| {
+            if !explore(cx, "sched-enumeration-deep", base, 3, 60_000, acc, false) {
+                complete.store(false, std::sync::atomic::Ordering::Relaxed);
+            }
+        });
+        if !complete.load(std::sync::atomic::Ordering::Relaxed) {
+            if let Some(p) = a.phases.last_mut() {
+                p["exhaustive"] = json!(false);
+            }
+        }
+        acc.merge(a);
+    }
     let n = cx.tier.pick(1u64, 20u64);
     let phase_r = if c11 { "sched-abort-random" } else { "sched-random" };
     acc.merge(par_proptest(cx, phase_r, if c11 { 60_000 * n } else { 150_000 * n }, move || random_strategy(c11), |c, acc| check(c, acc, c11).0));
